@@ -369,7 +369,8 @@ fn ser_named_type(ty: &OwnedDataModelType, value: &Value, out: &mut Vec<u8>) -> 
                 return Err(Error::SchemaMismatch);
             }
         }
-        OwnedDataModelType::Schema => todo!(),
+        // no JSON form for an embedded schema is defined yet: refuse instead of panicking
+        OwnedDataModelType::Schema => return Err(Error::ShouldSupportButDont),
     }
     Ok(())
 }
